@@ -370,6 +370,40 @@ var c11Long = &vh.Prop[c19LongCase]{
 
 func TestC11LongHistory(t *testing.T) { c11Long.Check(t, vh.N(25, 250)) }
 
+// thorough, first shard: > 2^14 distinct strings through one interned field, under C11 and C10
+func TestC11HugeInternHistory(t *testing.T) {
+	if !vh.Thorough() || os.Getenv("VERIF_SHARD") != "0" {
+		t.Skip("thorough tier, first shard only")
+	}
+	if f := c11Long.One(c19LongCase{Shape: 0, Distinct: 17000, Stride: 7}); f != nil {
+		t.Fatalf("C11/interned-long-history %s", f.Error())
+	}
+}
+
+// c10Long: history independence of decodes through an interned field after a very long history.
+var c10Long = &vh.Prop[c19LongCase]{
+	ID: "C10", Name: "interned-long-history",
+	Gen: c19Long.Gen,
+	Run: func(c c19LongCase, x *vh.Ctx) *vh.Failure {
+		f := c19Long.Run(c, x)
+		if f != nil && strings.HasPrefix(f.Class, "C19/") {
+			f.Class = "C10/" + strings.TrimPrefix(f.Class, "C19/")
+		}
+		return f
+	},
+}
+
+func TestC10LongInternHistory(t *testing.T) { c10Long.Check(t, vh.N(15, 150)) }
+
+func TestC10HugeInternHistory(t *testing.T) {
+	if !vh.Thorough() || os.Getenv("VERIF_SHARD") != "0" {
+		t.Skip("thorough tier, first shard only")
+	}
+	if f := c10Long.One(c19LongCase{Shape: 2, Distinct: 17000, Stride: 6}); f != nil {
+		t.Fatalf("C10/interned-long-history %s", f.Error())
+	}
+}
+
 // TestC19HugeHistory (thorough): one history with more than 2^14 distinct
 // strings through the interned fields (table sizes no short history reaches).
 func TestC19HugeHistory(t *testing.T) {
@@ -458,5 +492,5 @@ func setStrings(ts *vh.TSpec, v *vh.Val, next func() []byte) {
 }
 
 func init() {
-	registrars = append(registrars, c19Seq.Register, c19Sched.Register, c19Long.Register, c11Long.Register)
+	registrars = append(registrars, c19Seq.Register, c19Sched.Register, c19Long.Register, c11Long.Register, c10Long.Register)
 }
